@@ -71,7 +71,7 @@ func heavyCase(seed uint64) e2eCase {
 	r := rec.NewRand(seed)
 	variant := rec.Pick(r, []string{"ttu", "userset", "ring2"})
 	mids := r.Range(4, 8)
-	leaves := r.Range(120, 220)
+	leaves := r.Range(100, 180)
 	c := e2eCase{Kind: 4, Seed: seed, Heavy: variant, User: "user:u1", Conc: 2, Procs: rec.Pick(r, []int{2, 4, 16}), Watch: 45}
 	var tuples [][3]string
 	switch variant {
